@@ -82,8 +82,106 @@ def hof_case(draw, tier):
     return {"kind": "hof", "end": horizon, "times": times, "b": last, "passive": draw(st.booleans()), "stmts": stmts, "chain": chain}
 
 
+@st.composite
+def mesh_case(draw, tier):
+    """mesh_(F, val, link) with F(val, link) = val + (mesh_(F)[link] if that is valid else 0): instance k reads - through the
+    reference its mesh_subscribe node publishes - the result of instance link[k] (a sibling child graph of the same node).
+    Keys only appear; links appear later than the instances they join, are re-pointed, and always lead to an existing
+    key that comes earlier in a hidden random order (so the dependency relation stays acyclic)."""
+    big = tier == "thorough"
+    horizon = draw(st.integers(3, 14 if big else 9))
+    nkeys = draw(st.integers(2, 7 if big else 5))
+    order = draw(st.permutations(list(range(1, nkeys + 1))))     # a key may only depend on keys before it in this order
+    born, vals, links = {}, [], []
+    live = []
+    for t in range(horizon):
+        vops, lops = [], []
+        fresh = [k for k in order if k not in born]
+        # new instances (in any key order), value ticks of live ones
+        for k in draw(st.lists(st.sampled_from(fresh), unique=True, max_size=2 if t else 3)) if fresh else []:
+            born[k] = t
+            live.append(k)
+            vops.append(["set", k, draw(st.integers(1, 9))])
+        for k in live:
+            if born[k] < t and draw(st.integers(0, 2)) == 0:
+                vops.append(["set", k, draw(st.integers(1, 9)) + 10 * t])
+        # links: onto instances that already exist (now or earlier), possibly re-pointed later
+        for k in live:
+            cand = [j for j in order[:order.index(k)] if j in born]
+            if cand and draw(st.integers(0, 3)) == 0:
+                lops.append(["set", k, draw(st.sampled_from(cand))])
+        if vops:
+            vals.append([t, [{"k": "D", "ops": vops}]])
+        if lops:
+            links.append([t, [{"k": "D", "ops": lops}]])
+    return {"kind": "mesh", "end": horizon, "vals": vals, "links": links, "order": list(order)}
+
+
 def strategy(tier):
-    return st.one_of(dag_case(tier), dag_case(tier), dag_case(tier), cycle_case(tier), hof_case(tier))
+    return st.one_of(dag_case(tier), dag_case(tier), dag_case(tier), cycle_case(tier), hof_case(tier), mesh_case(tier))
+
+
+def check_mesh(case, ctx, res):
+    F = {"params": ["TS[int]", "TS[int]"], "names": ["val", "link"], "out": "TS[int]", "ret": "r", "stmts": [
+        {"id": "dep", "op": "mesh_ref", "key": {"arg": 1}, "schema": "TS[int]"},
+        {"id": "r", "op": "node", "ins": [{"arg": 0}, "dep"], "valid": [0], "out": "TS[int]", "fn": "sum", "log_inputs": False}]}
+    end = case["end"]
+    stmts = [{"id": "v", "op": "src", "schema": "TSD[int,TS[int]]", "script": case["vals"]},
+             {"id": "l", "op": "src", "schema": "TSD[int,TS[int]]", "script": case["links"]},
+             {"id": "clk", "op": "src", "schema": "TS[int]", "script": [[t, [{"k": "set", "v": t}]] for t in range(end)]},
+             {"id": "m", "op": "op", "name": "mesh_", "args": [{"fn": "F"}, {"ts": "v"}, {"ts": "l"}], "has_out": True},
+             {"id": "rec", "op": "node", "ins": ["m", "clk"], "deep": True, "valid": []}]
+    resp = ctx.run({"start": 0, "end": end, "subs": {"F": F}, "stmts": stmts})
+    if resp.get("crash"):
+        res.violations.append(Viol("engine_crash", f"mesh_ run: worker died: {resp.get('signal')} {resp.get('stderr', '')[-300:]}"))
+        return res
+    if not resp.get("built"):
+        raise Rejected(f"C01 mesh program rejected: {resp.get('error')}")
+    feats = {"mesh": True}
+    if resp.get("error"):
+        res.violations.append(Viol("run_failed", f"mesh_ run threw: {resp['error']}", feats))
+        return res
+    got = {}
+    for e in resp["trace"]:
+        if e[0] == "ev" and e[3] == "rec":
+            d = e[6][0]
+            got[e[4]] = {k: c.get("val") for k, c in ((d.get("acc") or {}).get("ch") or []) if c.get("v")} if d.get("v") else {}
+    val, link = {}, {}
+    vs = {t: ops for t, ops in case["vals"]}
+    ls = {t: ops for t, ops in case["links"]}
+    late_link = both_tick = False
+    for t in range(end):
+        ticked = set()
+        for op in vs.get(t, []):
+            for _, k, x in op["ops"]:
+                val[k] = x
+                ticked.add(k)
+        for op in ls.get(t, []):
+            for _, k, j in op["ops"]:
+                if j in val and j not in ticked:
+                    late_link = True
+                link[k] = j
+        exp = {}
+        for k in case["order"]:
+            if k in val:
+                exp[k] = val[k] + (exp.get(link[k], 0) if k in link else 0)
+        for k, j in link.items():
+            if k in ticked and j in ticked and late_link:
+                both_tick = True
+        if t in got and got[t] != exp:
+            bad = sorted(k for k in set(exp) | set(got[t]) if exp.get(k) != got[t].get(k))
+            res.violations.append(Viol("consumer_ran_before_producer", f"t={t}: mesh_ output {got[t]} but with val={val} and links={link} every instance that reads a sibling's result of this cycle must give {exp} (differs at {bad}): an instance was evaluated before the sibling it reads had its turn, or was not evaluated although that sibling ticked", feats))
+            break
+        if t not in got:
+            res.violations.append(Viol("run_failed", f"t={t}: the recorder bound to the mesh output and a metronome did not run", feats))
+            break
+    res.nontrivial = late_link and both_tick
+    res.labels.append("mesh")
+    if late_link:
+        res.labels.append("mesh_link_onto_existing_instance")
+    if len(link) >= 2 and any(link.get(link[k]) for k in link):
+        res.labels.append("mesh_chain_of_three")
+    return res
 
 
 def check_hof(case, ctx, res):
@@ -217,6 +315,8 @@ def check(case, ctx) -> Result:
     res = Result()
     if case["kind"] == "hof":
         return check_hof(case, ctx, res)
+    if case["kind"] == "mesh":
+        return check_mesh(case, ctx, res)
     if case["kind"] == "cycle":
         r1 = ctx.run(case["prog"])
         r2 = ctx.run(case["prog_cut"])
